@@ -14,6 +14,16 @@
 // consumers that join a later incarnation (or stay attached across the end)
 // are judged on what they receive.
 //
+// RTSP legs (rtsp_test.go): every incarnation draws its input protocol
+// independently (RTMP, customize, RTSP ANNOUNCE/RECORD over interleaved TCP
+// with RTP from the reference packetisers) and RTSP subscribers (DESCRIBE /
+// SETUP / PLAY) watch incarnations of any kind: the SDP, the RTP sources and
+// every elementary unit they receive must be the watched incarnation's own —
+// state of a predecessor's per-input machinery (remuxers, SDP, caches) must
+// not survive in the group.  Messages of an RTSP incarnation reach RTMP / FLV
+// consumers and the recordings through lal's RTP -> RTMP remuxer; they are
+// attributed by content (units of that incarnation only, none twice).
+//
 // L3 part (l3_test.go): real listeners and the real 1 s ticker of
 // ServerManager.RunLoop — group removal, idle disconnect, goroutine /
 // descriptor baseline.
@@ -33,6 +43,10 @@
 //   - media-sequence continuity of playlist.m3u8 across incarnations (C10, known
 //     finding), retry / restart rules of relay push (C17): the harness nudges
 //     Group.Tick until the push of a later incarnation has been started;
+//   - completeness for an RTSP input (its newest frames sit in lal's A/V
+//     interleave queue when it ends; the stat fields are filled asynchronously):
+//     RTSP incarnations are judged on finalisation structure (parse, ENDLIST,
+//     descriptors, hook, push) and on cleanliness, not on "everything published";
 //   - exact GOP-cache content and start-up rules (C02), completeness of a
 //     consumer's run before the point named below (C01).
 package c16
